@@ -106,6 +106,12 @@ func (c *Cluster) UpsertRegionHeartbeat(meta manifest.RegionMeta) error {
 	if meta.ID == 0 {
 		return ErrInvalidRegionID
 	}
+	// A bounded range must be non-empty: [start, end) with end <= start contains no
+	// key, overlaps nothing, and would shadow a real region with the same start key
+	// in the sorted route index.
+	if len(meta.EndKey) > 0 && bytes.Compare(meta.StartKey, meta.EndKey) >= 0 {
+		return fmt.Errorf("%w: region=%d start=%q end=%q", ErrInvalidRegionRange, meta.ID, meta.StartKey, meta.EndKey)
+	}
 
 	c.mu.Lock()
 	defer c.mu.Unlock()
